@@ -46,6 +46,12 @@ def run(chk, tier, seed):
         for r in res:
             if r['kind'] == 'error':
                 chk.broke(f'C06 globmatch harness crashed: {r["error"]}')
+            elif r['kind'] == 'globfilter-differs-from-globmatch':
+                chk.violation(dict(obligation='C06.bounded.globfilter(REALPATH)_applies_the_symlink_rule_like_globmatch', tree=r['tree'], pattern=r['pattern'], fl=r['fl'], witness=r['witness']),
+                              f'tree {r["tree"]} pattern {r["pattern"]!r} flags {r["fl"]}|REALPATH: globfilter and globmatch disagree on {r["witness"]!r}',
+                              f"import sys; sys.path.insert(0, {REPO!r}); sys.path.insert(0, '/verif')\nfrom wcmatch import glob\nfrom vlib.harness import trees\n"
+                              f"with trees.Tree({specs[r['tree']]!r}) as t:\n    c = {r['witness']!r}\n    a = glob.globmatch(c, {r['pattern']!r}, flags={r['flags']} | glob.U | glob.P, root_dir=t.root)\n"
+                              f"    b = glob.globfilter([c], {r['pattern']!r}, flags={r['flags']} | glob.U | glob.P, root_dir=t.root)\n    print(a, b)\n    sys.exit(0 if a == bool(b) else 1)\n")
             elif r['kind'] == 'compare':
                 n += 1
                 chk.case(key=('gm', r['tree'], r['pattern'], r['flags']), nontrivial=r['n'] > 0)
